@@ -94,6 +94,11 @@ HAMMER = (" Free-running part: several goroutines call AddEntry / DeleteEntry on
 for _p in ("C11", "C12"):
     CHECKS[_p]["text"] += HAMMER
 CHECKS["C12"]["engine2"] = CHECKS["C12"].get("engine2", CHECKS["C12"]["engine"]) + "+GribiRIBCS"
+SCHEDX = (" Handler-grain scenarios (vh sched-run, judged by GribiServerSched): a burst on one stream is processed in arrival order (an operation stamped with a not yet announced id "
+          "is FAILED although the announcement follows at once), and a violation sent while the write of an earlier answer is held up still ends the RPC with its status and removes the session's footprint.")
+for _p in ("C04", "C09"):
+    CHECKS[_p]["text"] += SCHEDX
+CHECKS["C09"]["engine2"] = "GribiServer+GribiServerSched"
 NA = {}
 def main():
     import families
